@@ -54,8 +54,8 @@ theorem C05_fixed_checked (ps : List PK) (pol : Policy) (P : Store → Prop) (hP
 
 /-- **C05 (all modelled kinds, with store preconditions).** The general form of `C05_contract`:
 static well-formedness `WFs` plus a store invariant that makes the boolean variables boolean and
-implies the kind's store precondition (`modulo`: non-negative dividend, positive divisor, no
-boundary sampling — the recorded findings; every other kind: none).  Covers leq, eq, add, sum,
+implies the kind's store precondition (`modulo`: non-negative dividend, positive divisor — what
+the proof of soundness still uses after the repairs of the modulo propagator; every other kind: none).  Covers leq, eq, add, sum,
 linear rows (plain and reified), reified comparisons, boolean kinds, abs, min, max, mul, div,
 modulo, all-equal, between, count, cardinality, element, table, if-then-else, all-different. -/
 theorem C05_contract_inv (k : PK) (hwf : k.WFs) (P : Store → Prop)
